@@ -59,14 +59,17 @@ def c2init_part(ctx, keys, other):
     from vt import tlaval
     from vt.ref import tlv
 
-    cfg = "CONSTANTS\n LATECHECK = %s\nSPECIFICATION Spec\nINVARIANT MatchesTable\nINVARIANT ReadyHasKeys\nPROPERTY Terminates\nCHECK_DEADLOCK FALSE\n"
+    cfg = "CONSTANTS\n LATECHECK = %s\n PARTIAL = %s\nSPECIFICATION Spec\nINVARIANT MatchesTable\nINVARIANT ReadyHasKeys\nPROPERTY Terminates\nCHECK_DEADLOCK FALSE\n"
     dot = ctx.outdir / "c2init.dot"
-    r = ctx.tlc("C2Init", cfg % "FALSE", name="c2init-model", workers=4, extra=["-dump", "dot,actionlabels", str(dot)])
+    r = ctx.tlc("C2Init", cfg % ("FALSE", "FALSE"), name="c2init-model", workers=4, extra=["-dump", "dot,actionlabels", str(dot)])
     core.require_clean(r, "C2Init")
-    core.require_coverage(r, ["CheckBoth", "CheckRequired", "Derive", "CheckAes", "CheckHmac", "CheckPair", "CheckTrial"])
-    r0 = ctx.tlc("C2Init", cfg % "TRUE", name="c2init-latecheck", workers=2, coverage=False)
+    core.require_coverage(r, ["CheckBoth", "CheckRequired", "Derive", "CheckAes", "CheckHmac", "CheckPair", "CheckTrial", "CheckIn"])
+    r0 = ctx.tlc("C2Init", cfg % ("TRUE", "FALSE"), name="c2init-latecheck", workers=2, coverage=False)
     if r0.ok:
         raise core.MachineryError("C2Init.tla accepts length checks before key derivation (vacuous?)")
+    r1 = ctx.tlc("C2Init", cfg % ("FALSE", "TRUE"), name="c2init-partial", workers=2, coverage=False)
+    if r1.ok:
+        raise core.MachineryError("C2Init.tla accepts a check-in that leaves half of the session keys underived (vacuous?)")
     g = tlaval.Graph(dot)
     dot.unlink()
     rng = random.Random(ctx.seed + 66)
@@ -99,6 +102,18 @@ def c2init_part(ctx, keys, other):
                 bad = "keys"
             elif bool(h.verify_hmac) != res["verify"] or (h.priv is not None) != res["rsa"] or (h.priv is not None and h.priv.n != key.n):
                 bad = "flags"
+            else:
+                # the first check-in: the request carries metadata encrypted for the configuration's key
+                md = c2.BeaconMetadata()
+                md.magic, md.bid, md.aes_rand = 0xBEEF, 4242, rng.randbytes(16)
+                md.size = len(md.dumps()) - 8
+                req = h.transform_get.transform(c2.C2Data(metadata=c2.encrypt_metadata(md, key.publickey())), request=c2.HttpRequest(method=b"GET", uri=b"/get", params={}, headers={}, body=b""))
+                ci = core.outcome(lambda: [type(p).__name__ for p in h.iter_recover_http(req)])
+                mdg = hashlib.sha256(bytes(md.aes_rand)).digest()
+                sym = {"md_aes": mdg[:16], "md_hmac": mdg[16:], "derived_aes": want_aes, "derived_hmac": want_hmac, "none": None}
+                exp_after = tuple(sym.get(x, kw["aes_key"] if i == 0 else kw["hmac_key"]) for i, x in enumerate(res["after"]))
+                if ci[0] != "ok" or (res["rsa"] and ci[1] != ["BeaconMetadata"]) or (h.beacon_keys.aes_key, h.beacon_keys.hmac_key) != exp_after:
+                    bad = "keys_after_checkin"
         if bad:
             ctx.violation("C2Http construction disagrees with C2Init.tla", {"op": "C2Http.__init__", "failed": bad},
                           {"args": a, "got": got if o[0] != "ok" else "ok", "expected": res})
@@ -193,6 +208,19 @@ def run(ctx):
             "short_plain": raw_rsa_encrypt(b"\x00\x00\xbe\xef", key, rng),
             "empty_plain": raw_rsa_encrypt(b"", key, rng),
         }
+        # a blob is a ciphertext only at exactly the modulus size: a genuine ciphertext that happens to start with a zero byte
+        # (about one in 256; encrypt until one turns up) is not valid any more without that byte, nor is any blob with a
+        # byte cut off or put in front
+        for _try in range(20000):
+            ctz = raw_rsa_encrypt(ser, key, rng)
+            if ctz[0] == 0:
+                faults["leading_zero_cut"] = ctz[1:]
+                if c2.decrypt_metadata(ctz, key).magic != 0xBEEF:
+                    raise core.MachineryError("harness RSA: a ciphertext with a leading zero byte does not decrypt")
+                break
+        faults["front_cut"] = good[1:]
+        faults["zero_in_front"] = b"\x00" + good
+        faults["byte_appended"] = good + b"\x00"
         for name, blob in faults.items():
             o = core.outcome(c2.decrypt_metadata, blob, key)
             ctx.evaluations += 1
